@@ -6,7 +6,10 @@ through public accessors, must be one of the outcomes the relational reference
 model (structure.model_step, DESIGN 3.3) allows for (pre-state, op).
 """
 
-from .. import engine_h
+from edgegraph.structure import Vertex
+from edgegraph.traversal import helpers
+
+from .. import engine_h, oracles
 from ..report import Report
 from ..structure import (
     Alphabet, Pumped, SWorld, apply_op, canon_world, inv_links, inv_members, observe, shape,
@@ -16,6 +19,11 @@ from .c01 import PUMPED
 
 PROP = "C03"
 
+WARM_POOLS = {
+    "quick": [dict(nv=2, maxl=2, maxar=2, classes=("D", "U"), link_ft_classes=("O",), bad=False)],
+    "thorough": [dict(nv=2, maxl=2, maxar=3, classes=("D", "U"), link_ft_classes=("O",)),
+                 dict(nv=3, maxl=2, maxar=2, classes=("D", "O"), bad=False)],
+}
 POOLS = {
     "quick": [
         dict(nv=2, maxl=2, maxar=3, classes=("D", "U"), link_ft_classes=("O",)),
@@ -29,6 +37,31 @@ POOLS = {
         dict(nv=3, maxl=2, maxar=3, classes=("U",), bad=False),
     ],
 }
+
+
+# Warm-memo legs: the same transition again on a re-built pre-state with neighbour caching on and
+# the memos of every vertex filled by one kind of query.  A mutation must not depend on what the
+# neighbour cache happens to hold (the queries themselves are C05's business).
+WARMS = {
+    "forward": dict(direction_sensitive=oracles.FWD),
+    "backward": dict(direction_sensitive=oracles.BWD),
+    "any,unknown=nonneighbor": dict(direction_sensitive=oracles.ANY, unknown_handling=oracles.NON),
+}
+
+
+def warm_leg(system, hist, op, name):
+    """(obs, observation) of `op` applied to build(hist) with warm memos of kind `name`."""
+    w2 = engine_h.build(system, hist)
+    w2.flag = True
+    Vertex.NEIGHBOR_CACHING = True
+    for v in w2.v:
+        try:
+            helpers.neighbors(v, **WARMS[name])
+        except Exception:  # noqa: BLE001   (unknown link class under the default handling)
+            pass
+    obs2 = apply_op(w2, op)
+    Vertex.NEIGHBOR_CACHING = False
+    return obs2, observe(w2)
 
 
 def _diff_kind(op, post, allowed, obs):
@@ -69,9 +102,11 @@ def judge(pre_obs, op, post_obs, obs):
 
 
 class System:
-    def __init__(self, alpha):
+    def __init__(self, alpha, warm=False):
         self.alpha = alpha
         self.unspec = 0
+        self.warm = warm
+        self.current_history = ()
 
     def initial(self):
         if isinstance(self.alpha, Pumped):
@@ -98,6 +133,14 @@ class System:
         post_o = observe(post)
         kind = judge(pre_o, op, post_o, obs)
         if kind is None:
+            if self.warm and model_step(pre_o, op) is not UNSPEC:
+                for name in WARMS:
+                    obs2, post2 = warm_leg(self, self.current_history, op, name)
+                    if obs2 != obs or post2 != post_o:
+                        what = "return" if obs2 != obs else "post-state"
+                        return [(f"{shape(pre_o, op)}|{obs[0]}|with-warm-neighbour-memos({name})|{what}-differs-from-cold",
+                                 {"op": list(op), "obs": obs, "pre": pre_o, "post": post_o, "warm": name,
+                                  "warm_obs": obs2, "warm_post": post2})]
             return []
         if inv_links(post) or inv_members(post):
             kind += "|asymmetric-post-state"
@@ -131,6 +174,15 @@ def replay(rec, verbose=False):
     obs = apply_op(w, hist[-1])
     post_o = observe(w)
     kind = judge(pre_o, hist[-1], post_o, obs)
+    warm = rec.get("detail", {}).get("warm") if isinstance(rec.get("detail"), dict) else None
+    warm = warm or rec.get("warm")
+    if warm:
+        obs2, post2 = warm_leg(System(alpha), hist[:-1], hist[-1], warm)
+        if verbose:
+            print("  history:", hist)
+            print(f"  cold: {hist[-1]} -> {obs}  post {post_o}")
+            print(f"  with neighbour caching on and {warm} memos warm: -> {obs2}  post {post2}")
+        return obs2 != obs or post2 != post_o
     if verbose:
         print("  history:", hist)
         print("  pre :", pre_o)
@@ -147,14 +199,15 @@ def run(tier, seed, log):
     tot = dict(states=0, transitions=0, validated=0, nontrivial=0, outcomes=0)
     pools_ev, samples = [], []
     exhaustive = True
-    for spec in POOLS[tier]:
+    for spec, warm in [(s, False) for s in POOLS[tier]] + [(s, True) for s in WARM_POOLS[tier]]:
         alpha = Alphabet(**spec)
-        log(f"[{PROP}] pool {spec}")
-        res = engine_h.explore(System(alpha), seed=seed, log=log)
+        log(f"[{PROP}] pool {spec}" + (" + warm-memo legs" if warm else ""))
+        res = engine_h.explore(System(alpha, warm=warm), seed=seed, log=log)
         for fp, (n, rec) in res.viols.items():
             rec = dict(rec)
             rec["pool"] = spec
             rep.add(fp, rec, n)
+        spec = dict(spec, warm_memo_legs=True) if warm else spec
         tot["states"] += res.states
         tot["transitions"] += res.transitions
         tot["validated"] += res.validated
@@ -208,6 +261,9 @@ def run(tier, seed, log):
     }
     rep.assumptions = [
         "bounded pools; histories of every length over each pool",
+        "warm-memo legs (separate pools, marked warm_memo_legs): every "
+        "specified transition is repeated on a re-built pre-state with caching on and forward / backward / "
+        "any-direction memos warm, and must give the same return value and post-state",
         "reference model slack (DESIGN 3.3): own-list position of a link on re-assignment of an end the "
         "vertex already/still occupies; calls on links with other than two ends are unspecified",
         "removing a non-member may raise any exception type",
